@@ -13,14 +13,19 @@
 //   - ACAO present  =>  origin permitted and value == lower(origin), or value == "*" and the
 //     configuration allows all origins; at most one ACAO value. (Only-if direction. The
 //     converse — a permitted origin not getting the header — is counted under info_* stats.)
-//   - ACAC present  =>  credentials configured, ACAO present and != "*".
+//   - ACAC never together with ACAO: *.
 //   - credentials + allow-all must panic at construction.
-//   - non-allow-all configuration: no-Origin, simple and preflight responses carry Vary: Origin.
-//   - simple request: handler entered once, status 200; permitted origin gets ACAC when
-//     credentials are configured and ACEH when expose headers are configured.
-//   - preflight: 204, handler not entered, ACAM == configured methods, ACAH == configured
-//     headers (when configured), ACMA per MaxAge, private-network header only when configured
-//     and requested.
+//   - non-allow-all configuration: no-Origin, simple and preflight responses carry Vary: Origin
+//     (as a member of the Vary token set; order and other tokens are free).
+//   - every preflight: 204, handler not entered.
+//   - preflight of an origin that is granted access (ACAO expected and present): ACAM ==
+//     configured methods, ACAH == configured headers (when configured), ACMA per MaxAge (when
+//     != 0), private-network header iff configured and requested.
+//   - NOT judged, only counted (info_* stats), because the statement does not fix them: what a
+//     refused origin's preflight carries besides "no ACAO" (methods, headers, max-age,
+//     private-network), ACAC without/with configuration on its own, ACAC missing for a permitted
+//     origin, expose headers, Max-Age / private-network on non-preflight responses, whether a
+//     non-preflight request is passed on to the handler.
 //   - origins outside the serialized-origin syntax: only the `*`/credentials clauses, the
 //     echo-equality clause and the no-panic clause.
 package cors
@@ -785,9 +790,11 @@ func judge(e *ev.Env, c *ev.Case, sc *scenario) {
 			case acao == "*":
 				e.Violation(c, "credentials-with-star|"+cls, "Access-Control-Allow-Credentials sent together with Access-Control-Allow-Origin: *", detail(nil))
 			case !s.cred:
-				e.Violation(c, "credentials-not-configured|"+cls, "Access-Control-Allow-Credentials sent although AllowCredentials is false", detail(nil))
+				// not a clause of the statement (it only forbids the pair with `*`): observed, not judged
+				stat(e, "info_credentials_header_although_not_configured", 1)
+				e.Sample("info_credentials_header_although_not_configured", detail(nil))
 			case len(acaoAll) == 0:
-				e.Violation(c, "credentials-without-acao|"+cls, "Access-Control-Allow-Credentials sent without Access-Control-Allow-Origin", detail(nil))
+				stat(e, "info_credentials_header_without_acao", 1)
 			}
 		}
 		if len(acaoAll) > 1 {
@@ -851,7 +858,8 @@ func judge(e *ev.Env, c *ev.Case, sc *scenario) {
 		// --- credentials for permitted origins ---------------------------------------------------
 		if s.cred && !all && len(acaoAll) == 1 && acao == lower && q.inDomain && perm && (cls == clsSimple || cls == clsPreflight) {
 			if len(acac) != 1 || acac[0] != "true" {
-				e.Violation(c, "credentials-missing|"+cls, "permitted origin with AllowCredentials did not get Access-Control-Allow-Credentials: true", detail(nil))
+				// the statement never demands the credentials header: observed, not judged
+				stat(e, "info_credentials_header_missing_for_permitted_origin", 1)
 			} else {
 				stat(e, "acac_observed", 1)
 			}
@@ -867,18 +875,31 @@ func judge(e *ev.Env, c *ev.Case, sc *scenario) {
 		}
 
 		// --- handler entry, status, configured preflight headers -----------------------------------
+		// Judged is only what the statement says: a preflight is answered 204 without reaching the
+		// handler, and - for an origin that is granted access (ACAO expected and present) - with
+		// the configured methods/headers. What a REFUSED origin is told beyond "no ACAO", what a
+		// non-preflight response carries besides ACAO/ACAC/Vary, and whether a simple request is
+		// passed on, are not fixed by the statement: counted as info_* only.
+		granted := len(acaoAll) == 1 && (all || (q.inDomain && perm))
 		switch cls {
 		case clsNoOrigin, clsSimple:
 			if entered != 1 || resp.Status != 200 {
-				e.Violation(c, "handler-not-reached|"+cls, "non-preflight request did not reach the handler exactly once with 200", detail(nil))
+				stat(e, "info_non_preflight_not_passed_to_handler|"+cls, 1)
+			} else {
+				stat(e, "non_preflight_reached_handler", 1)
 			}
-			if cls == clsSimple && len(s.exposeHeaders) > 0 && len(acaoAll) == 1 && (perm || all) && q.inDomain {
+			if cls == clsSimple && len(s.exposeHeaders) > 0 && granted {
 				if resp.Get(hACEH) != strings.Join(s.exposeHeaders, ", ") {
-					e.Violation(c, "expose-headers-mismatch|"+cls, "Access-Control-Expose-Headers differs from the configuration", detail(nil))
+					stat(e, "info_expose_headers_differ_from_configuration", 1)
+				} else {
+					stat(e, "expose_headers_observed", 1)
 				}
 			}
 			if len(resp.All(hACAPN)) > 0 {
-				e.Violation(c, "private-network-on-non-preflight|"+cls, "Access-Control-Allow-Private-Network on a non-preflight response", detail(nil))
+				stat(e, "info_private_network_header_on_non_preflight", 1)
+			}
+			if len(resp.All(hACMA)) > 0 {
+				stat(e, "info_max_age_on_non_preflight", 1)
 			}
 		case clsOptNoACRM:
 			stat(e, "options_without_acrm_handler_entered", int64(entered))
@@ -891,13 +912,10 @@ func judge(e *ev.Env, c *ev.Case, sc *scenario) {
 			} else {
 				stat(e, "preflight_204", 1)
 			}
-			if got, want := resp.Get(hACAM), strings.Join(s.effMethods(), ", "); got != want {
-				e.Violation(c, "preflight-methods-mismatch", "Access-Control-Allow-Methods differs from the configured methods", detail(map[string]any{"want": want}))
-			}
+			wantM := strings.Join(s.effMethods(), ", ")
+			wantH := ""
 			if !s.noConfig && len(s.allowHeaders) > 0 {
-				if got, want := resp.Get(hACAH), strings.Join(s.allowHeaders, ", "); got != want {
-					e.Violation(c, "preflight-headers-mismatch", "Access-Control-Allow-Headers differs from the configured headers", detail(map[string]any{"want": want}))
-				}
+				wantH = strings.Join(s.allowHeaders, ", ")
 			}
 			wantMA := ""
 			if s.maxAge > 0 {
@@ -905,13 +923,44 @@ func judge(e *ev.Env, c *ev.Case, sc *scenario) {
 			} else if s.maxAge < 0 {
 				wantMA = "0"
 			}
-			if got := resp.Get(hACMA); got != wantMA || (wantMA == "" && len(resp.All(hACMA)) > 0) {
-				e.Violation(c, "preflight-max-age-mismatch", "Access-Control-Max-Age differs from the configuration", detail(map[string]any{"want": wantMA}))
-			}
 			pn := resp.All(hACAPN)
+			if !granted {
+				// refused (or unjudgeable) origin: presence/absence of the grant headers is not judged
+				stat(e, "preflight_not_granted", 1)
+				if resp.Get(hACAM) == wantM {
+					stat(e, "info_refused_preflight_with_allow_methods", 1)
+				} else {
+					stat(e, "info_refused_preflight_without_allow_methods", 1)
+				}
+				if wantH != "" && resp.Get(hACAH) != wantH {
+					stat(e, "info_refused_preflight_without_allow_headers", 1)
+				}
+				if len(pn) > 0 {
+					stat(e, "info_refused_preflight_with_private_network_header", 1)
+				} else if s.pna && q.acrpn == "true" {
+					stat(e, "info_refused_preflight_without_private_network_header", 1)
+				}
+				break
+			}
+			stat(e, "preflight_granted", 1)
+			if got := resp.Get(hACAM); got != wantM {
+				e.Violation(c, "preflight-methods-mismatch", "Access-Control-Allow-Methods differs from the configured methods", detail(map[string]any{"want": wantM}))
+			}
+			if wantH != "" {
+				if got := resp.Get(hACAH); got != wantH {
+					e.Violation(c, "preflight-headers-mismatch", "Access-Control-Allow-Headers differs from the configured headers", detail(map[string]any{"want": wantH}))
+				}
+			}
+			if wantMA != "" {
+				if got := resp.Get(hACMA); got != wantMA {
+					e.Violation(c, "preflight-max-age-mismatch", "Access-Control-Max-Age differs from the configuration", detail(map[string]any{"want": wantMA}))
+				}
+			} else if len(resp.All(hACMA)) > 0 {
+				stat(e, "info_max_age_header_although_max_age_zero", 1)
+			}
 			if s.pna && q.acrpn == "true" {
 				if len(pn) != 1 || pn[0] != "true" {
-					e.Violation(c, "preflight-private-network-missing", "configured and requested private-network access not granted", detail(nil))
+					e.Violation(c, "preflight-private-network-missing", "configured and requested private-network access not granted to a permitted origin", detail(nil))
 				} else {
 					stat(e, "private_network_granted", 1)
 				}
@@ -1052,7 +1101,7 @@ func run(e *ev.Env) {
 		}{
 			{"acao_echo_permitted_exact", 1}, {"acao_echo_permitted_wildcard", 1}, {"acao_echo_permitted_func", 1},
 			{"acao_absent_for_unpermitted", 1}, {"acao_star_observed", 1}, {"acac_observed", 1},
-			{"vary_origin_observed", 1}, {"preflight_204", 1}, {"construct_invalid_panicked", 1}, {"private_network_granted", 1},
+			{"vary_origin_observed", 1}, {"preflight_204", 1}, {"construct_invalid_panicked", 1}, {"private_network_granted", 1}, {"preflight_granted", 1},
 		}
 		for _, nd := range need {
 			if seen[nd.name] < nd.n {
